@@ -759,6 +759,14 @@ func c05Run(u *vfUnit) {
 				if ea == nil && eb == nil && fa.ModTime().Unix() != fb.ModTime().Unix() {
 					u.Violation("value:Chtimes-mtime", fmt.Sprintf("step %d %s: mtime on the served tree %d, with os %d", i, st, fa.ModTime().Unix(), fb.ModTime().Unix()), w)
 				}
+				// the access time just set (read back at once, before anything can have read the file; a stat does not touch it)
+				if ea == nil && eb == nil {
+					ta, oka := fa.Sys().(*syscall.Stat_t)
+					tb, okb := fb.Sys().(*syscall.Stat_t)
+					if oka && okb && ta.Atim.Sec != tb.Atim.Sec {
+						u.Violation("value:Chtimes-atime", fmt.Sprintf("step %d %s: atime on the served tree %d, with os %d", i, st, ta.Atim.Sec, tb.Atim.Sec), w)
+					}
+				}
 			}
 			sa, sb := c05Snap(A), c05Snap(B)
 			if sa != sb {
